@@ -104,12 +104,12 @@ func (m *Machine) set(fr *frame, v ssa.Value, x value) {
 }
 
 func (m *Machine) constVal(c *ssa.Const) value {
-	if v, ok := m.P.constCache.Load(c); ok {
+	if v, ok := m.wc.consts[c]; ok {
 		return v
 	}
 	v, cache := constValue(c)
 	if cache {
-		m.P.constCache.Store(c, v)
+		m.wc.consts[c] = v
 	}
 	return v
 }
@@ -172,7 +172,11 @@ func (m *Machine) globalAddr(g *ssa.Global) *value {
 }
 
 func (m *Machine) ensureInit(pkg *ssa.Package) {
+	if pkg == m.lastPkg {
+		return
+	}
 	if m.pkgState[pkg] != 0 {
+		m.lastPkg = pkg
 		return
 	}
 	m.pkgState[pkg] = 1
@@ -193,15 +197,15 @@ func (m *Machine) pushFrame(co *coroutine, fn *ssa.Function, args []value, env [
 	if fn.Pkg != nil {
 		m.ensureInit(fn.Pkg)
 	}
-	info := m.P.info(fn)
+	info := m.info(fn)
 	if len(fn.Blocks) == 0 {
 		m.unsupported("call of function without body: %s", info.name)
 	}
 	if len(co.stack) > 400 {
 		m.unsupported("call depth exceeded at %s", info.name)
 	}
-	if m.funcs != nil {
-		m.funcs[info.name]++
+	if m.fcount != nil {
+		m.fcount[info]++
 	}
 	fr := &frame{fn: fn, info: info, block: fn.Blocks[0], regs: make([]value, info.nregs), retReg: retReg}
 	i := 0
@@ -234,7 +238,7 @@ func (m *Machine) callValueNested(co *coroutine, fnv value, args []value) value 
 	var res value
 	switch f := fnv.(type) {
 	case *ssa.Function:
-		info := m.P.info(f)
+		info := m.info(f)
 		if info.intr != nil {
 			r, handled := info.intr(m, co.top(), f, args)
 			if handled {
@@ -355,7 +359,7 @@ func (m *Machine) invokeDeferred(co *coroutine, fr *frame, d *deferred) bool {
 		if f == nil {
 			m.rtPanic("invalid memory address or nil pointer dereference")
 		}
-		info := m.P.info(f)
+		info := m.info(f)
 		if info.intr != nil {
 			r, handled := info.intr(m, fr, f, d.args)
 			if handled {
@@ -816,7 +820,7 @@ func (m *Machine) doCall(co *coroutine, fr *frame, fnv value, args []value, retR
 		if f == nil {
 			m.rtPanic("invalid memory address or nil pointer dereference")
 		}
-		info := m.P.info(f)
+		info := m.info(f)
 		if info.isPkgInit {
 			// package initialisers are run lazily by ensureInit, never by other initialisers
 			fr.pc++
@@ -852,7 +856,7 @@ func (m *Machine) doCall(co *coroutine, fr *frame, fnv value, args []value, retR
 func (m *Machine) startCall(co *coroutine, fnv value, args []value) {
 	switch f := fnv.(type) {
 	case *ssa.Function:
-		info := m.P.info(f)
+		info := m.info(f)
 		if info.intr != nil {
 			saved := m.cur
 			m.cur = co
